@@ -141,6 +141,7 @@ def run(ctx):
 
     # ---------------------------------------------------------------- ATOMIC
     C13.check_function(ctx, d, False, prefix='C15-ATOMIC')
+    C13.position_rule(ctx, 'C15-POS')
     hs = [s for s in walk_no_nested(d.node) if isinstance(s, ast.For) and isinstance(s.target, ast.Name) and s.target.id == 'undo_func']
     ok = bool(hs) and all(norm(s.iter) == 'reversed(undo_funcs)' for s in hs)
     ctx.ob('C15-ATOMIC.refused-delete-replays-undo-in-reverse', d, hs[0] if hs else d.node, ok, '' if ok else 'the refusal handler of _delete_ does not replay reversed(undo_funcs)')
@@ -268,6 +269,8 @@ def run(ctx):
 
 
 MUTANTS = [
+    dict(id='C15-pos1', file='pony/orm/core.py', fn='Entity._delete_', old="                    if save_pos is not None:\n                        assert objects_to_save[save_pos] is None", new="                    if save_pos:\n                        assert objects_to_save[save_pos] is None", expect='C15-POS'),
+    dict(id='C15-pos2', file='pony/orm/core.py', fn='Entity._delete_', old="                    if save_pos is not None:\n                        assert objects_to_save[save_pos] is None", new="                    if not (save_pos is None):\n                        assert objects_to_save[save_pos] is None", benign=True),
     dict(id='C15-links1', file='pony/orm/core.py', fn='Entity._delete_', old="                            val = get_val(attr) if attr in obj._vals_ else attr.load(obj)", new="                            val = get_val(attr) if attr in obj._dbvals_ else attr.load(obj)", expect='C15-LINKS'),
     dict(id='C15-fo1', file='pony/orm/dbproviders/sqlite.py', fn='SQLitePool._connect', old="        if sqlite.sqlite_version_info >= (3, 6, 19):", new="        if getattr(pool, 'fk_support', False):", expect='C15-FKON'),
     dict(id='C15-f1', file='pony/orm/dbproviders/sqlite.py', fn='SQLiteProvider.set_transaction_mode', old="                if cache.saved_fk_state is None:  # keep the state saved by an earlier transaction of this session\n                    cache.saved_fk_state = bool(fk)", new="                cache.saved_fk_state = bool(fk)", expect='C15-FKSTATE'),
